@@ -28,7 +28,7 @@ Step ==
         /\ Chk(e.src.k = "none" \/ (x1.st = "err" /\ x1.lbl = "UnknownMember" /\ e.disallow) \/ x1.st = "unspec" \/ x1 = OkV(e.src),
                [tag |-> "HARNESS", i |-> l, ev |-> "J2P", api |-> "", label |-> "GeneratorVsSpec", exp |-> "", got |-> x1.st, detail |-> x1.lbl])
         /\ IF x1.st = "ok" THEN
-              Chk(e.st = "ok" /\ e.ref \in {x1.v, x2.v}, R(e, "Denotes", "ok", IF e.st = "ok" THEN "wrong-message" ELSE e.st))
+              Chk(e.st = "ok" /\ (e.ref \in {x1.v, x2.v} \/ (HasNegZeroIntLit(e.d) /\ NormZ(e.ref) \in {NormZ(x1.v), NormZ(x2.v)})), R(e, "Denotes", "ok", IF e.st = "ok" THEN "wrong-message" ELSE e.st))
            ELSE IF x1.st = "err" THEN
               Chk(e.st = "err", R(e, x1.lbl, "err", IF e.st = "ok" THEN "silently-accepted" ELSE e.st))
            \* outcome not fixed by C09; a crash of the converter is still reported
